@@ -115,6 +115,38 @@ def check_file(fd):
     return []
 
 
+def check_file_from_disk(fd):
+    """repr of a MidiFile that was loaded by file name, also after its tracks were cleared / the file is gone."""
+    import os
+    import tempfile
+    out = []
+    with tempfile.TemporaryDirectory(prefix='c14_') as tmp:
+        path = os.path.join(tmp, 'song.mid')
+        mid = mido.MidiFile(type=fd['type'], ticks_per_beat=fd['tpb'],
+                            tracks=[mido.MidiTrack([M.to_mido(d) for d in tr]) for tr in fd['tracks']])
+        try:
+            mid.save(path)
+            loaded = mido.MidiFile(path)
+        except Exception:  # noqa: BLE001
+            return []
+        variants = [('as loaded', loaded)]
+        emptied = mido.MidiFile(path)
+        emptied.tracks.clear()
+        variants.append(('tracks cleared', emptied))
+        fresh = mido.MidiFile(type=fd['type'], ticks_per_beat=fd['tpb'])
+        fresh.filename = os.path.join(tmp, 'not-written-yet.mid')
+        variants.append(('new file with a name', fresh))
+        for what, m in variants:
+            try:
+                r = eval(repr(m), dict(NS))  # noqa: S307
+                if (r.type, r.ticks_per_beat, len(r.tracks)) != (m.type, m.ticks_per_beat, len(m.tracks)) or any(
+                        len(a) != len(b) or any(not _eq(x, y) for x, y in zip(a, b)) for a, b in zip(r.tracks, m.tracks)):
+                    out.append(fail('file-repr', f'file from disk ({what}): repr does not evaluate to an equal file', what=what))
+            except Exception as exc:  # noqa: BLE001
+                out.append(fail('file-repr', f'file from disk ({what}): {exc!r}', what=what, exc=exc_sig(exc)))
+    return out
+
+
 def check_negative(text):
     try:
         r = mido.parse_string(text)
@@ -187,7 +219,7 @@ def run_case(case):
     if k == 'track':
         return check_track(case['msgs'])
     if k == 'file':
-        return check_file(case['file'])
+        return check_file(case['file']) + (check_file_from_disk(case['file']) if case.get('disk') else [])
     if k == 'neg':
         return check_negative(case['text'])
     if k == 'arbitrary':
@@ -355,7 +387,8 @@ def hyp_shard(rec, shard):
                                                                'msgs': st.lists(ev, min_size=z, max_size=z)}))
         rec.hyp(strat, n, seed_offset=200 + k)
     elif block == 'file':
-        strat = st.fixed_dictionaries({'kind': st.just('file'), 'file': S.file_dicts(max_tracks=3, max_events=3)})
+        strat = st.fixed_dictionaries({'kind': st.just('file'), 'file': S.file_dicts(max_tracks=3, max_events=3),
+                                       'disk': st.booleans()})
         rec.hyp(strat, n, seed_offset=300 + k)
     elif block == 'neg':
         rec.hyp(negative_texts(), n, seed_offset=400 + k)
@@ -394,4 +427,5 @@ def main(ctx):
     ctx.check({'kind': 'track', 'msgs': []})
     ctx.check({'kind': 'file', 'file': {'type': 1, 'tpb': 480, 'tracks': []}})
     ctx.check({'kind': 'file', 'file': {'type': 1, 'tpb': 480, 'tracks': [[]]}})
-    ctx.check({'kind': 'file', 'file': {'type': 1, 'tpb': 480, 'tracks': [[R.default_msg('note_on')]]}})
+    ctx.check({'kind': 'file', 'file': {'type': 1, 'tpb': 480, 'tracks': [[R.default_msg('note_on')]]}, 'disk': True})
+    ctx.check({'kind': 'file', 'file': {'type': 1, 'tpb': 480, 'tracks': []}, 'disk': True})
